@@ -465,6 +465,14 @@ def rule_X2(ctx, info):
     ctx.rule("X2", "running maximum: column 0 copied, S[i,j] = max(D[i,j], S[i,j-1]) with choice j resp. choice[i,j-1] in the matching arm, every row, every column from 1", 7)
     f = prog.fn(MAP + "compute_log_S")
     Q = f.qualname
+    # a vectorised running maximum must run along the grid (last axis) of the (samples, grid) array: numpy's
+    # accumulate defaults to axis 0, i.e. across samples
+    for c in [n for n in ast.walk(f.node) if isinstance(n, ast.Call)]:
+        nm = u(c.func)
+        if nm.split(".")[-1] in ("accumulate", "cummax") and ("maximum" in nm or "fmax" in nm or nm.endswith("cummax")):
+            ax = next((k.value for k in c.keywords if k.arg == "axis"), c.args[1] if len(c.args) > 1 else None)
+            axv = ast.literal_eval(ax) if ax is not None and isinstance(ax, (ast.Constant, ast.UnaryOp)) else None
+            ctx.check(axv in (1, -1), "X2", "compute_log_S: the vectorised running maximum runs along the grid axis", f.where(c), "%s accumulates along axis %s of the (samples, grid) array: the running maximum mixes samples instead of running over the children's total within one sample" % (u(c)[:80], "0 (numpy's default)" if ax is None else u(ax)), construct=Q, stmt="running maximum axis")
     with _generic_loops():
         ex = extract(prog, f, no_inline=["compute_log_D"])
     calls = ex.calls("compute_log_D")
@@ -1076,6 +1084,11 @@ def run(ctx):
 
     ctx._own_rules = set(ctx.rule_min)
     imported(ctx, C12.rule_N1)
+    # the back-pointer tables are indexed by child position: a table memoised under an order-insensitive key would be
+    # served to a call with the same children in another order (same rule object as C14.K6)
+    from . import C14
+
+    imported(ctx, C14.rule_K6)
 
 
 # Self-test catalogue: one textual edit each (or a list of edits), applied to a scratch copy (see selftest.py).
